@@ -845,6 +845,9 @@ func c14RunStarve(m *vk.M, idx int, cfg c14DerivedCfg) (ok bool) {
 		}
 		s2 = c14Read(u)
 	}
+	if !c14CheckRate(mon, "starve_", time.Duration(int64(timex.Now())-int64(c14Start))) {
+		return true
+	}
 	m.Count("starve_scenarios", 1)
 	m.Max("starve_max_gap_ms", sim.maxGap/1e6)
 	if m.WantSample() {
@@ -948,6 +951,29 @@ func c14RunHiRate(m *vk.M, idx int, cfg c14DerivedCfg) (ok bool) {
 	return true
 }
 
+// c14CheckRate: "every connection is still picked at least about once per
+// second" as a rate: over d of sustained traffic every connection must have been
+// picked at least d/1.5s - 1 times (mean interval <= 1.5 s; the force-pick of
+// correct P2C gives ~1.0-1.1 s at >= 2000 picks per virtual second, N <= 8).
+const c14RateInterval = 1500 * time.Millisecond
+
+func c14CheckRate(mon *c14Mon, prefix string, d time.Duration) bool {
+	need := int64(d/c14RateInterval) - 1
+	for j, n := range mon.picks {
+		// gauge: mean interval between picks of the least-picked connection, in ms
+		if n > 0 {
+			mon.m.Max(prefix+"max_mean_pick_interval_ms", int64(d/time.Millisecond)/n)
+		}
+		if n < need {
+			s := c14Read(mon.p.conns[j])
+			mon.violate("C14:starvation:picked-less-than-about-once-per-second", "backend %d was picked %d times during %.1f virtual seconds of sustained traffic (%d picks in total): mean interval %.2fs, 'about once per second' needs at least %d picks (mean interval <= %.1fs); its lag=%d success=%d inflight=%d",
+				j, n, d.Seconds(), mon.nPick, d.Seconds()/float64(n+1), need, c14RateInterval.Seconds(), s.lag, s.success, s.inflight)
+			return false
+		}
+	}
+	return true
+}
+
 // overlap: backend 0 is the high-load backend and its calls overlap: after a
 // warm-up they take 4 s / 10 s of virtual time, or never complete while the
 // traffic lasts ("hung"), so it has calls in flight whenever it is a candidate.
@@ -1028,6 +1054,9 @@ func c14RunOverlap(m *vk.M, idx int, cfg c14DerivedCfg) (ok bool) {
 		if !mon.complete(pd, c14OK) {
 			return true
 		}
+	}
+	if !c14CheckRate(mon, "overlap_", time.Duration(end-int64(c14Start))) {
+		return true
 	}
 	m.Count("overlap_scenarios", 1)
 	m.Max("overlap_max_gap_ms", maxGap/1e6)
@@ -1113,7 +1142,7 @@ func c14RunIdle(m *vk.M, idx int, cfg c14DerivedCfg) (ok bool) {
 func TestVerifC14Derived(t *testing.T) {
 	logx.Disable()
 	atomic.StoreInt32(&c14Stalled, 0)
-	m := vk.New(t, "C14", fmt.Sprintf("sequential sustained traffic on the virtual clock. share: after a 2 s all-success warm-up backend 0 fails every call (Unavailable/DeadlineExceeded), others succeed; once its completions span 0.8*decayTime it must have success<=%d; then over %d picks (10ms apart, N>=4: equal latency or fast-failing) its count < %.1f x the smallest healthy count (N=3: fewer than each healthy one); for N<=8 no backend goes unpicked for %v. hirate: N in {1,2,3,5}, one call per 100us/1ms/5ms (or bursts of 4 calls per instant every 1ms), backend 0 fails every call after a warm-up: unhealthy after at most 1000 failed completions that are each later than its previous completion. idle: N in {1,2,3,5}, calls outstanding across an idle period > logInterval, then their completions, then picks again: every Pick/Done returns (a 30 s stall with goroutines parked on the picker mutex and nobody holding it is the violation). overlap: N in {2,3,5,8}, backend 0's calls take 4 s / 10 s / never complete, so they overlap while traffic continues at 2000 picks/s: still every backend picked within 3 virtual s. starve: backend 0 25x slower, 2000 picks/virtual s, N in 2..8: every backend picked at least once in every %v of virtual time; after a 2 s all-success warm-up; fail-recover variant: unhealthy after 15 s of failures, success>%d again after 40 s of successes", throttleSuccess, c14SharePicks, c14ShareFactor, c14ShareWindow, c14StarveWindow, throttleSuccess))
+	m := vk.New(t, "C14", fmt.Sprintf("sequential sustained traffic on the virtual clock. share: after a 2 s all-success warm-up backend 0 fails every call (Unavailable/DeadlineExceeded), others succeed; once its completions span 0.8*decayTime it must have success<=%d; then over %d picks (10ms apart, N>=4: equal latency or fast-failing) its count < %.1f x the smallest healthy count (N=3: fewer than each healthy one); for N<=8 no backend goes unpicked for %v. hirate: N in {1,2,3,5}, one call per 100us/1ms/5ms (or bursts of 4 calls per instant every 1ms), backend 0 fails every call after a warm-up: unhealthy after at most 1000 failed completions that are each later than its previous completion. idle: N in {1,2,3,5}, calls outstanding across an idle period > logInterval, then their completions, then picks again: every Pick/Done returns (a 30 s stall with goroutines parked on the picker mutex and nobody holding it is the violation). overlap: N in {2,3,5,8}, backend 0's calls take 4 s / 10 s / never complete, so they overlap while traffic continues at 2000 picks/s: still every backend picked within 3 virtual s. starve/overlap also: every backend picked at least duration/1.5s - 1 times (rate form of 'about once per second'). starve: backend 0 25x slower, 2000 picks/virtual s, N in 2..8: every backend picked at least once in every %v of virtual time; after a 2 s all-success warm-up; fail-recover variant: unhealthy after 15 s of failures, success>%d again after 40 s of successes", throttleSuccess, c14SharePicks, c14ShareFactor, c14ShareWindow, c14StarveWindow, throttleSuccess))
 	defer m.Done()
 	defer timex.VerifRealClock()
 	reps := vk.N(3, 40)
